@@ -82,11 +82,14 @@ pub struct GenCfg {
     pub stream_fold_par_only: bool,
     /// allow call-paced unbounded recursive appends (known-finding class K2 lives here)
     pub unbounded_rec: bool,
+    /// call arguments are literals and enclosing fold iterators only, so that a call that is
+    /// reached can always be executed by its target (C19 quiescence sub-domain)
+    pub literal_args_only: bool,
 }
 
 impl GenCfg {
     pub fn new(profile: Profile) -> Self {
-        GenCfg { profile, n_peers: 4, max_arr: 3, failing: true, non_json: false, stream_fold_par_only: false, unbounded_rec: false }
+        GenCfg { profile, n_peers: 4, max_arr: 3, failing: true, non_json: false, stream_fold_par_only: false, unbounded_rec: false, literal_args_only: false }
     }
 }
 
@@ -115,6 +118,10 @@ pub struct Features {
     pub nested_stream_fold: usize,
     /// streams filled by >= 3 aps in one run (one generation)
     pub same_gen_fill: usize,
+    /// `new x` around a re-assignment of an existing scalar x
+    pub new_shadowing: usize,
+    /// ... whose body ends with a catchable error (caught by an xor outside the scope)
+    pub new_left_by_error: usize,
 }
 
 #[derive(Clone, Debug)]
@@ -343,7 +350,7 @@ impl<'a> Elab<'a> {
 
     fn call(&mut self, l: &Leaf, env: &mut Env, ctx: Ctx, out_mode: usize) -> I {
         let peer = self.target(env, l.peer, l.x);
-        let mut args: Vec<(Arg, Shape)> = l.args.iter().map(|c| self.any_arg(env, *c)).collect();
+        let mut args: Vec<(Arg, Shape)> = if self.cfg.literal_args_only { l.args.iter().map(|c| self.literal(c[1])).collect() } else { l.args.iter().map(|c| self.any_arg(env, *c)).collect() };
         // enclosing iterators make the dynamic call instance identifiable
         for ia in self.iter_args(env) {
             if !args.iter().any(|(a, _)| *a == ia.0) {
@@ -653,6 +660,35 @@ impl<'a> Elab<'a> {
                         let inner = self.el(body, env, ctx);
                         env.canons = saved;
                         I::New { var: cn, body: Box::new(inner) }
+                    }
+                    5 | 0 | 1 if !env.scalars.is_empty() => {
+                        // restrict an existing scalar and re-assign it inside the scope: after the
+                        // scope the outer value must be visible again
+                        let (x, outer_shape) = env.scalars[pick(c.wrapping_mul(131), env.scalars.len())].clone();
+                        let func = self.fresh_fun();
+                        self.services.insert(func.clone(), Ret::Str);
+                        self.feat.calls += 1;
+                        self.feat.new_shadowing += 1;
+                        let mut args = vec![];
+                        for (ia, _) in self.iter_args(env) {
+                            args.push(ia);
+                        }
+                        let redefine = I::Call { peer: self.peer_lit(c.wrapping_mul(977)), svc: Arg::Str("shadow".into()), func: Arg::Str(func), args, out: Some(x.clone()) };
+                        if let Some(e) = env.scalars.iter_mut().find(|(n, _)| *n == x) {
+                            e.1 = Shape::Str;
+                        }
+                        let inner = self.el(body, env, ctx);
+                        if let Some(e) = env.scalars.iter_mut().find(|(n, _)| *n == x) {
+                            e.1 = outer_shape;
+                        }
+                        // under a protecting xor: sometimes leave the scope through a catchable error
+                        let inner = if ctx.protected && c % 3 == 0 {
+                            self.feat.new_left_by_error += 1;
+                            I::seq(inner, I::Fail(FailKind::Lit(9, "leave-scope".into())))
+                        } else {
+                            inner
+                        };
+                        I::New { var: x, body: Box::new(I::seq(redefine, inner)) }
                     }
                     _ => {
                         // a fresh scalar name, unused inside (scalars are single-assignment
